@@ -526,8 +526,19 @@ func verifJSProgram(body []byte, version int) {
 		}
 	}
 	vAssert(k0 == k1, "same completion kind")
-	if k0 != cNormal {
-		vAssert(jvEq(v0, v1), "same returned / thrown value")
+	if k0 != cNormal && !jvEq(v0, v1) {
+		// recorded finding C01-F5: two or more expression statements merged into a `return undefined` / `return void 0`
+		// tail: the undefined is dropped from the comma expression and the function returns the last operand instead
+		hasU := false
+		for i := 0; i+16 <= len(orig); i++ {
+			if string(orig[i:i+16]) == "return undefined" || string(orig[i:i+13]) == "return void 0" {
+				hasU = true
+			}
+		}
+		if hasU && k0 == cReturn && v0.t == jU && k1 == cReturn {
+			vKnown("C01-F5")
+		}
+		vFail("same returned / thrown value")
 	}
 	vAssert(jvEq(s0.vars["x"], s1.vars["x"]) && jvEq(s0.vars["y"], s1.vars["y"]), "same final values of the globals")
 	// version gate: ?. and ?? only for targets >= 2020 (or unspecified) unless the input had them
@@ -702,4 +713,17 @@ func VerifJSNullish(n int) {
 		vAssert(jvEq(s0.vars["x"], s1.vars["x"]), "same final value of x")
 	}
 	vReach("end")
+}
+
+// VerifJSReturnTail: two expression statements followed by a return/throw tail: merging of the statement list into the
+// tail must keep the returned value (in particular `return undefined` / `return void 0` / bare `return`).
+func VerifJSReturnTail(n int) {
+	pre := []string{"f(1);", "a=1;", "x=b;", "g(a);", "a=b;"}
+	tails := []string{"return undefined;", "return void 0;", "return;", "return a;", "", "throw a;", "return undefined,a;", "if(b)return undefined;return a;"}
+	body := []byte(pre[vChoice("s0", len(pre))] + pre[vChoice("s1", len(pre))])
+	if n >= 3 {
+		body = append(body, pre[vChoice("s2", len(pre))]...)
+	}
+	body = append(body, tails[vChoice("tail", len(tails))]...)
+	verifJSProgram(body, 0)
 }
